@@ -13,9 +13,13 @@ package sample
 //     RulesBasedSamplerCondition.Init run exactly as in production;
 //   - spans carry real msgpack payloads (types.Payload.UnmarshalMsgpack) and
 //     are added to a real types.Trace the way the collector does it;
-//   - the observation is GetSampleRate's (rate, keep, reason).
+//   - the observation is GetSampleRate's (rate, keep, reason, key); the trace ID
+//     is one whose hash lies in the bucket the vector names (c08TraceIDs), so
+//     that the decision of a deterministic downstream sampler is predicted.
 
 import (
+	"crypto/sha1"
+	"encoding/binary"
 	"encoding/json"
 	"fmt"
 	"math"
@@ -83,17 +87,87 @@ type c08Cond struct {
 	List   []c08Val `json:"list"`
 }
 
+// c08Down is the rule's own downstream sampler (its Sampler key): kind "none",
+// "det", "dyn", "ema", "total", "emat", "win"; Rate is that sampler's SampleRate /
+// GoalSampleRate / GoalThroughputPerSec, Fl its FieldList.
+type c08Down struct {
+	Kind string   `json:"kind"`
+	Rate int      `json:"rate"`
+	Fl   []string `json:"fl"`
+}
+
 type c08Rule struct {
 	Scope string    `json:"scope"`
 	Conds []c08Cond `json:"conds"`
 	Drop  bool      `json:"drop"`
 	Rate  int       `json:"rate"`
-	Ds    bool      `json:"ds"`
+	Name  string    `json:"name"` // "": no Name key; "#": named by position (r1, r2, ...); else literal
+	Down  c08Down   `json:"down"`
 }
+
+func (r c08Rule) hasDown() bool { return r.Down.Kind != "" && r.Down.Kind != "none" }
 
 type c08Trace struct {
 	Spans []map[string]c08Val `json:"spans"`
 	Root  int                 `json:"root"`
+	Hb    int                 `json:"hb"` // hash bucket of the trace ID (0 .. c08HK-1)
+}
+
+// c08HK is HK of spec/Rules.tla: the range of the deterministic sampler's hash
+// (0 .. MaxUint32) is cut into c08HK equal parts and the specification says in
+// which part the trace ID of a vector hashes. The hash is the documented one of
+// the deterministic sampler (as in the C10 harness): the first four bytes, big
+// endian, of sha1(traceID ‖ salt).
+const c08HK = 6
+
+func c08Bucket(id string) int {
+	sum := sha1.Sum([]byte(id + "5VQ8l2jE5aJLPVqk"))
+	return int(uint64(binary.BigEndian.Uint32(sum[:4])) * c08HK >> 32)
+}
+
+// c08TraceIDs[b] is a trace ID whose hash lies in bucket b.
+var c08TraceIDs = func() [c08HK]string {
+	var ids [c08HK]string
+	for n, found := 0, 0; found < c08HK; n++ {
+		id := fmt.Sprintf("c08trace%d", n)
+		if b := c08Bucket(id); ids[b] == "" {
+			ids[b] = id
+			found++
+		}
+	}
+	return ids
+}()
+
+var c08DownYAMLKind = map[string][2]string{
+	"det":   {"DeterministicSampler", "SampleRate"},
+	"dyn":   {"DynamicSampler", "SampleRate"},
+	"ema":   {"EMADynamicSampler", "GoalSampleRate"},
+	"total": {"TotalThroughputSampler", "GoalThroughputPerSec"},
+	"emat":  {"EMAThroughputSampler", "GoalThroughputPerSec"},
+	"win":   {"WindowedThroughputSampler", "GoalThroughputPerSec"},
+}
+
+func c08DownYAML(d c08Down) (string, error) {
+	k, ok := c08DownYAMLKind[d.Kind]
+	if !ok {
+		return "", fmt.Errorf("unknown downstream sampler kind %q", d.Kind)
+	}
+	parts := []string{fmt.Sprintf(`%q: %d`, k[1], d.Rate)}
+	if d.Kind != "det" {
+		var fs []string
+		for _, f := range d.Fl {
+			fs = append(fs, strconv.Quote(f))
+		}
+		parts = append(parts, `"FieldList": [`+strings.Join(fs, ", ")+`]`)
+	}
+	return fmt.Sprintf(`{%q: {%s}}`, k[0], strings.Join(parts, ", ")), nil
+}
+
+func c08RuleName(r c08Rule, i int) string {
+	if r.Name == "#" {
+		return fmt.Sprintf("r%d", i+1)
+	}
+	return r.Name
 }
 
 type c08Vec struct {
@@ -187,7 +261,10 @@ func c08CondYAML(c c08Cond) (string, error) {
 func c08RulesYAML(rules []c08Rule) (string, error) {
 	var rs []string
 	for i, r := range rules {
-		parts := []string{fmt.Sprintf(`"Name": "r%d"`, i+1)}
+		var parts []string
+		if n := c08RuleName(r, i); n != "" {
+			parts = append(parts, fmt.Sprintf(`"Name": %q`, n))
+		}
 		if r.Scope != "" {
 			parts = append(parts, fmt.Sprintf(`"Scope": %q`, r.Scope))
 		}
@@ -197,8 +274,12 @@ func c08RulesYAML(rules []c08Rule) (string, error) {
 		if r.Rate != 0 {
 			parts = append(parts, fmt.Sprintf(`"SampleRate": %d`, r.Rate))
 		}
-		if r.Ds {
-			parts = append(parts, `"Sampler": {"DynamicSampler": {"SampleRate": 1, "FieldList": ["f"]}}`)
+		if r.hasDown() {
+			y, err := c08DownYAML(r.Down)
+			if err != nil {
+				return "", err
+			}
+			parts = append(parts, `"Sampler": `+y)
 		}
 		if len(r.Conds) > 0 {
 			var cs []string
@@ -218,16 +299,55 @@ func c08RulesYAML(rules []c08Rule) (string, error) {
 
 // c08Loader owns the real configuration and sampler factory.
 type c08Loader struct {
-	dir      string
-	cfg      config.Config
-	factory  *SamplerFactory
-	envOf    map[string]string // canonical rule list -> environment name
-	samplers map[string]Sampler
+	dir         string
+	cfg         config.Config
+	factory     *SamplerFactory
+	envOf       map[string]string // canonical rule list -> environment name
+	samplers    map[string]Sampler
+	unvalidated *c08Loader // the rule lists the validator does not accept (see c08Load)
 }
 
 // c08Load writes all rule lists into one rules file and loads it through the
-// production loader (validation included).
+// production loader (validation included). The rules metadata does not list
+// DeterministicSampler among the downstream samplers of a rule although the
+// configuration types, the YAML decoder and the sampler factory support it;
+// rule lists that use one go into a second rules file that the same loader reads
+// the way `refinery --no-validate` does.
 func c08Load(dir string, ruleLists map[string][]c08Rule) (*c08Loader, error) {
+	val, unval := map[string][]c08Rule{}, map[string][]c08Rule{}
+	for k, rules := range ruleLists {
+		dst := val
+		for _, r := range rules {
+			if r.Down.Kind == "det" {
+				dst = unval
+			}
+		}
+		dst[k] = rules
+	}
+	l, err := c08LoadFile(dir, "c08", val, false)
+	if err != nil {
+		return nil, err
+	}
+	if len(unval) > 0 {
+		if l.unvalidated, err = c08LoadFile(dir, "c08nv", unval, true); err != nil {
+			l.stop()
+			return nil, err
+		}
+	}
+	return l, nil
+}
+
+func (l *c08Loader) stop() {
+	if l == nil {
+		return
+	}
+	if l.factory != nil {
+		l.factory.Stop()
+	}
+	l.unvalidated.stop()
+}
+
+func c08LoadFile(dir, stem string, ruleLists map[string][]c08Rule, noValidate bool) (*c08Loader, error) {
 	l := &c08Loader{dir: dir, envOf: map[string]string{}, samplers: map[string]Sampler{}}
 	keys := make([]string, 0, len(ruleLists))
 	for k := range ruleLists {
@@ -237,7 +357,7 @@ func c08Load(dir string, ruleLists map[string][]c08Rule) (*c08Loader, error) {
 	var b strings.Builder
 	b.WriteString("{\"RulesVersion\": 2,\n \"Samplers\": {\n  \"__default__\": {\"DeterministicSampler\": {\"SampleRate\": 1}}")
 	for i, k := range keys {
-		env := fmt.Sprintf("env%d", i+1)
+		env := fmt.Sprintf("%senv%d", stem, i+1)
 		l.envOf[k] = env
 		y, err := c08RulesYAML(ruleLists[k])
 		if err != nil {
@@ -246,15 +366,15 @@ func c08Load(dir string, ruleLists map[string][]c08Rule) (*c08Loader, error) {
 		fmt.Fprintf(&b, ",\n  %q: %s", env, y)
 	}
 	b.WriteString("\n }\n}\n")
-	cfgFile := filepath.Join(dir, "c08_config.yaml")
-	rulesFile := filepath.Join(dir, "c08_rules.yaml")
+	cfgFile := filepath.Join(dir, stem+"_config.yaml")
+	rulesFile := filepath.Join(dir, stem+"_rules.yaml")
 	if err := os.WriteFile(cfgFile, []byte("General:\n  ConfigurationVersion: 2\n"), 0o644); err != nil {
 		return nil, err
 	}
 	if err := os.WriteFile(rulesFile, []byte(b.String()), 0o644); err != nil {
 		return nil, err
 	}
-	c, err := config.NewConfig(&config.CmdEnv{ConfigLocations: []string{cfgFile}, RulesLocations: []string{rulesFile}})
+	c, err := config.NewConfig(&config.CmdEnv{ConfigLocations: []string{cfgFile}, RulesLocations: []string{rulesFile}, NoValidate: noValidate})
 	if c == nil {
 		return nil, fmt.Errorf("the real loader rejected the generated rules file: %v", err)
 	}
@@ -268,6 +388,9 @@ func c08Load(dir string, ruleLists map[string][]c08Rule) (*c08Loader, error) {
 
 func (l *c08Loader) sampler(key string) (Sampler, error) {
 	env, ok := l.envOf[key]
+	if !ok && l.unvalidated != nil {
+		return l.unvalidated.sampler(key)
+	}
 	if !ok {
 		return nil, fmt.Errorf("rule list not in the loaded rules file: %s", key)
 	}
@@ -289,9 +412,13 @@ func (l *c08Loader) sampler(key string) (Sampler, error) {
 }
 
 func (l *c08Loader) trace(t c08Trace) (*types.Trace, error) {
-	tr := &types.Trace{TraceID: "c08trace", APIKey: "c08key", Dataset: "c08"}
+	if t.Hb < 0 || t.Hb >= c08HK {
+		return nil, fmt.Errorf("hash bucket %d", t.Hb)
+	}
+	id := c08TraceIDs[t.Hb]
+	tr := &types.Trace{TraceID: id, APIKey: "c08key", Dataset: "c08"}
 	for i, sp := range t.Spans {
-		m := map[string]any{"name": fmt.Sprintf("span%d", i+1), "trace.trace_id": "c08trace"}
+		m := map[string]any{"name": fmt.Sprintf("span%d", i+1), "trace.trace_id": id}
 		for name, v := range sp {
 			if v.K == "abs" {
 				continue
@@ -312,7 +439,7 @@ func (l *c08Loader) trace(t c08Trace) (*types.Trace, error) {
 		}
 		span := &types.Span{
 			Event:   &types.Event{APIKey: "c08key", Dataset: "c08", Data: p},
-			TraceID: "c08trace",
+			TraceID: id,
 			IsRoot:  i+1 == t.Root,
 		}
 		tr.AddSpan(span)
@@ -323,34 +450,113 @@ func (l *c08Loader) trace(t c08Trace) (*types.Trace, error) {
 	return tr, nil
 }
 
-var c08ReasonRE = regexp.MustCompile(`^rules/(trace|span)/r([0-9]+)(:.*)?$`)
+var c08ReasonRE = regexp.MustCompile(`^rules/(trace|span)/([^:]*)(?::(.*))?$`)
+
+// c08Via names who decided from the part of the reason after the rule's name:
+// nothing (the rule's own Drop / SampleRate) or the reason of a downstream sampler.
+func c08Via(samplerReason string, has bool) string {
+	if !has {
+		return "rule"
+	}
+	switch samplerReason {
+	case "deterministic/always", "deterministic/chance":
+		return "det"
+	case "dynamic":
+		return "dyn"
+	case "emadynamic":
+		return "ema"
+	case "totalthroughput":
+		return "total"
+	case "emathroughput":
+		return "emat"
+	case "windowedthroughput":
+		return "win"
+	}
+	return "?" + samplerReason
+}
+
+// c08Compared is Compared of the specification: how much of a rule's answer is
+// compared ("exact": keep and rate; "key": neither - keep is random and the rate
+// depends on traffic; "norate": a drop rule has no documented rate; "nokeep": the
+// keep flag of SampleRate N > 1 is random, see TestVerifC08Prob).
+func c08Compared(r c08Rule) string {
+	switch {
+	case r.Down.Kind == "det" || r.Down.Kind == "dyn":
+		return "exact"
+	case r.hasDown():
+		return "key"
+	case r.Drop:
+		return "norate"
+	case r.Rate == 1:
+		return "exact"
+	}
+	return "nokeep"
+}
+
+// c08KeySet is the set of values a sample key is made of.
+func c08KeySet(key string) []string {
+	set := map[string]bool{}
+	for _, tok := range strings.FieldsFunc(key, func(r rune) bool { return r == '•' || r == ',' }) {
+		set[tok] = true
+	}
+	out := make([]string, 0, len(set))
+	for k := range set {
+		out = append(out, k)
+	}
+	sort.Strings(out)
+	return out
+}
 
 // c08Observe turns GetSampleRate's answer into the outcome record of the
-// specification. The keep flag of a SampleRate N > 1 rule is random and is
-// covered by TestVerifC08Prob; the rate of a drop rule is not documented.
-func c08Observe(rules []c08Rule, rate uint, keep bool, reason string) map[string]any {
+// specification. Which rule decided is read from the reason (scope word, rule
+// name, reason of the downstream sampler): the FIRST rule of the list with that
+// scope word, name and kind of downstream sampler (ObsRule of the specification;
+// with unique names that is the rule itself). What is compared of keep and rate
+// is Compared of that rule (the specification only enumerates rule lists in which
+// rules that look the same in the reason are compared the same way).
+func c08Observe(rules []c08Rule, rate uint, keep bool, reason, key string) map[string]any {
 	class := "drop"
 	if keep {
 		class = "keep"
 	}
+	ks := c08KeySet(key)
 	if reason == "no rule matched" {
-		return map[string]any{"rule": 0, "class": class, "rate": int(rate)}
+		return map[string]any{"rule": 0, "class": class, "rate": int(rate), "via": "none", "keySet": ks}
 	}
 	m := c08ReasonRE.FindStringSubmatch(reason)
 	if m == nil {
-		return map[string]any{"rule": -2, "class": class, "rate": int(rate), "reason": reason}
+		return map[string]any{"rule": -2, "class": class, "rate": int(rate), "via": "?", "keySet": ks, "reason": reason}
 	}
-	idx, _ := strconv.Atoi(m[2])
-	if idx < 1 || idx > len(rules) {
-		return map[string]any{"rule": idx, "class": class, "rate": int(rate), "reason": reason}
+	via := c08Via(m[3], strings.Contains(reason[len("rules/"+m[1]+"/"):], ":"))
+	idx, compared := 0, ""
+	for i, r := range rules {
+		word, kind := "trace", r.Down.Kind
+		if r.Scope == "span" {
+			word = "span"
+		}
+		if !r.hasDown() {
+			kind = "rule"
+		}
+		if word != m[1] || c08RuleName(r, i) != m[2] || kind != via {
+			continue
+		}
+		if idx == 0 {
+			idx, compared = i+1, c08Compared(r)
+		} else if c08Compared(r) != compared {
+			return map[string]any{"rule": -4, "class": class, "rate": int(rate), "via": via, "keySet": ks, "reason": reason,
+				"error": "rules that look the same in the reason are compared differently"}
+		}
 	}
-	r := rules[idx-1]
-	out := map[string]any{"rule": idx, "class": class, "rate": int(rate)}
-	switch {
-	case r.Ds:
-	case r.Drop:
+	if idx == 0 {
+		return map[string]any{"rule": -2, "class": class, "rate": int(rate), "via": via, "keySet": ks, "reason": reason}
+	}
+	out := map[string]any{"rule": idx, "class": class, "rate": int(rate), "via": via, "keySet": ks}
+	switch compared {
+	case "key":
+		out["class"], out["rate"] = "sampled", -1
+	case "norate":
 		out["rate"] = -1
-	case r.Rate > 1:
+	case "nokeep":
 		out["class"] = "sampled"
 	}
 	return out
@@ -455,7 +661,7 @@ func (h *c08Harness) Reset(init map[string]any) error {
 	if h.trace, err = h.loader.trace(h.vec.Trace); err != nil {
 		return err
 	}
-	h.out = map[string]any{"rule": -1, "class": "none", "rate": -1}
+	h.out = map[string]any{"rule": -1, "class": "none", "rate": -1, "via": "", "keySet": []string{}}
 	return nil
 }
 
@@ -480,11 +686,11 @@ func (h *c08Harness) Apply(a map[string]any) (err error) {
 	}
 	defer func() {
 		if r := recover(); r != nil {
-			h.out = map[string]any{"rule": -3, "class": "none", "rate": -1, "panic": fmt.Sprint(r)}
+			h.out = map[string]any{"rule": -3, "class": "none", "rate": -1, "via": "", "keySet": []string{}, "panic": fmt.Sprint(r)}
 		}
 	}()
-	rate, keep, reason, _ := h.sampler.GetSampleRate(tr)
-	h.out = c08Observe(h.vec.Rules, rate, keep, reason)
+	rate, keep, reason, key := h.sampler.GetSampleRate(tr)
+	h.out = c08Observe(h.vec.Rules, rate, keep, reason, key)
 	return nil
 }
 
@@ -740,9 +946,7 @@ func c08Drive(h *c08Harness) error {
 func TestVerifC08Rules(t *testing.T) {
 	h := &c08Harness{t: t}
 	err := c08Drive(h)
-	if h.loader != nil && h.loader.factory != nil {
-		h.loader.factory.Stop()
-	}
+	h.loader.stop()
 	if err != nil {
 		t.Fatal(err)
 	}
@@ -772,17 +976,17 @@ func TestVerifC08Prob(t *testing.T) {
 	lists := map[string][]c08Rule{}
 	key := func(n int) string { return fmt.Sprintf("rate%04d", n) }
 	for _, n := range rates {
-		lists[key(n)] = []c08Rule{{Conds: []c08Cond{cond}, Rate: n}, {Drop: true}}
+		lists[key(n)] = []c08Rule{{Name: "#", Conds: []c08Cond{cond}, Rate: n}, {Name: "#", Drop: true}}
 	}
-	lists["rate0001"] = []c08Rule{{Conds: []c08Cond{cond}, Rate: 1}, {Drop: true}}
-	lists["drop"] = []c08Rule{{Conds: []c08Cond{cond}, Drop: true, Rate: 7}}
+	lists["rate0001"] = []c08Rule{{Name: "#", Conds: []c08Cond{cond}, Rate: 1}, {Name: "#", Drop: true}}
+	lists["drop"] = []c08Rule{{Name: "#", Conds: []c08Cond{cond}, Drop: true, Rate: 7}}
 	l, err := c08Load(t.TempDir(), lists)
 	if err != nil {
 		res["error"] = err.Error()
 		finish()
 		return
 	}
-	defer l.factory.Stop()
+	defer l.stop()
 	tr, err := l.trace(c08Trace{Spans: []map[string]c08Val{{"f": {K: "s", S: "a"}}}, Root: 1})
 	if err != nil {
 		res["error"] = err.Error()
